@@ -261,7 +261,7 @@ class SolveRunner:
             self.proxy.pad = max(64, 2 * max(max(r) for r in m) + 8)
 
     def run(self, start, script):
-        """-> (kind or -1, register index, n registers, table info)."""
+        """-> (failing clause or -1, index of the hand-over concerned)."""
         s = self.stub
         s.reset(start, script)
         self.error = None
@@ -325,9 +325,11 @@ def _solve_job(a):
                     regs += len(r.stub.trace)
                     mt, mh = model_trace(algo, m, start, script)
                     ok = mt == r.stub.trace
-                    if ok and r.proxy is not None \
-                            and r.proxy.buf is not None:
+                    guarded = r.proxy is not None \
+                        and r.proxy.buf is not None
+                    if guarded:
                         tables += 1
+                    if ok and guarded:
                         hv = r.proxy.view
                         nz = np.flatnonzero(hv)
                         ok = {int(k): int(hv[k]) for k in nz} == mh
@@ -501,6 +503,9 @@ def drivers():
                 x[:] = perms[r]
                 failed = False
                 y2 = 0
+                # (measured, numba 0.60: an exception raised inside a kernel
+                # declared inline="always" is NOT caught here but leaves the
+                # driver; _kernel_job then locates the call from Python)
                 try:
                     y2 = rev_if_not_worse(i, j, n, dist, x, y)
                 except Exception:  # noqa
